@@ -248,7 +248,7 @@ theorem rangesBetween_ne_nil (dlen lineLen prev : Nat) (ms : List Nat) :
     rangesBetween dlen lineLen prev ms ≠ [] := by
   cases ms <;> simp [rangesBetween]
 
-theorem rangesBetween_tiling (d line : Bytes) :
+theorem rangesBetween_tiling (d line : Bytes) (hd : d ≠ []) :
     ∀ (ms : List Nat) (prev : Nat), MatchesOK d line prev ms → prev ≤ line.length →
       Tiling d line prev (rangesBetween d.length line.length prev ms) := by
   intro ms
@@ -259,11 +259,12 @@ theorem rangesBetween_tiling (d line : Bytes) :
     obtain ⟨h1, h2, h3⟩ := hm
     have hle : idx + d.length ≤ line.length := by
       have := h2.length_le
-      simp at this; omega
+      have := length_pos_of_ne_nil hd
+      simp at *; omega
     have := ih (idx + d.length) h3 hle
     simp only [rangesBetween]
     cases hr : rangesBetween d.length line.length (idx + d.length) t with
-    | nil => exact absurd hr (rangesBetween_ne_nil ..)
+    | nil => exact absurd hr (rangesBetween_ne_nil _ _ _ _)
     | cons r' t' =>
       rw [hr] at this
       exact ⟨rfl, h1, h2, this⟩
@@ -273,7 +274,7 @@ theorem fields_tiling (d line : Bytes) (hd : d ≠ []) (hline : line ≠ []) :
   unfold fillWithFieldsLocations
   rw [isEmpty_eq_false_of_ne_nil hline]
   simp only [Bool.false_eq_true, if_false]
-  exact rangesBetween_tiling d line _ 0 (findIter_ok d line hd) (by omega)
+  exact rangesBetween_tiling d line hd _ 0 (findIter_ok d line hd) (by omega)
 
 /-- **C01, well-formedness.** The ranges of a non-empty line: the first starts at 0, every range
     has `start ≤ stop`, the next one starts `d.length` after the previous stop, the last stops at
@@ -315,7 +316,7 @@ theorem Consecutive.getElem_bounds {dlen n : Nat} :
       simp only [List.getElem_cons_succ]; omega
 
 theorem Consecutive.head_start {dlen n s : Nat} {rs : List Range} (h : Consecutive dlen n s rs) :
-    rs[0]'h.length_pos |>.start = s := by
+    (rs[0]'h.length_pos).start = s := by
   match rs, h with
   | [_], h => exact h.1
   | _ :: _ :: _, h => exact h.1
@@ -383,7 +384,10 @@ theorem Tiling.drop {d line : Bytes} :
   | [r], _, h, a, ha => by
     have : a = 0 := by simp at ha; omega
     subst this
-    exact ⟨rfl, by have := h.1; have := h.2.1; omega, h.2.2⟩
+    have h1 := h.1
+    have h2 := h.2.1
+    simp only [List.getElem_cons_zero, List.drop_zero]
+    exact ⟨rfl, by omega, h.2.2⟩
   | r :: r' :: t, _, h, a, ha => by
     cases a with
     | zero =>
@@ -419,9 +423,26 @@ theorem Tiling.slice_eq {d line : Bytes} :
           slice line r.start r.stop :: (contents line (r' :: t)).take (k' + 1) := by
         simp [contents]
       have hne : (contents line (r' :: t)).take (k' + 1) ≠ [] := by simp [contents]
-      rw [htake, joinWith_cons_of_ne_nil _ _ _ hne, ← ih, h1,
-        ← slice_of_prefix_drop d line r.stop h3, List.append_assoc,
-        slice_append_slice line (by omega) hle, slice_append_slice line h2 (by omega)]
+      have hsd := slice_of_prefix_drop d line r.stop h3
+      rw [htake, joinWith_cons_of_ne_nil _ _ _ hne, ← ih, h1, List.append_assoc,
+        ← slice_append_slice line h2 (show r.stop ≤ (r' :: t)[k'].stop by omega),
+        ← slice_append_slice line (Nat.le_add_right r.stop d.length) hle, hsd]
+
+theorem Tiling.slice_extract {d line : Bytes} {s : Nat} {rs : List Range} (ht : Tiling d line s rs)
+    (a b : Nat) (hab : a ≤ b) (hb : b < rs.length) :
+    slice line (rs[a]'(by omega)).start rs[b].stop =
+      joinWith d ((contents line rs).extract a (b + 1)) := by
+  have ha : a < rs.length := by omega
+  have hdrop := ht.drop a ha
+  have hk : b - a < (rs.drop a).length := by simp; omega
+  have := hdrop.slice_eq (b - a) hk
+  have hget : (rs.drop a)[b - a] = rs[b] := by
+    rw [List.getElem_drop]; congr 1; omega
+  rw [hget] at this
+  rw [this, List.extract_eq_take_drop]
+  simp only [contents, List.map_drop]
+  congr 2
+  omega
 
 /-- **C01, interleaving.** For fields `a ≤ b` of a non-empty line, the bytes from the start of
     field `a` to the end of field `b` are the fields `a … b` of the specification with exactly
@@ -431,20 +452,8 @@ theorem slice_eq_interleave (d line : Bytes) (hd : d ≠ []) (hline : line ≠ [
     slice line ((fillWithFieldsLocations [] line d)[a]'(by omega)).start
         ((fillWithFieldsLocations [] line d)[b]).stop =
       joinWith d ((splitFields d line).extract a (b + 1)) := by
-  have ht := fields_tiling d line hd hline
-  have hc := fields_are_contents d line hd hline
-  generalize fillWithFieldsLocations [] line d = rs at ht hc hb
-  have ha : a < rs.length := by omega
-  have hdrop := ht.drop a ha
-  have hk : b - a < (rs.drop a).length := by simp; omega
-  have := hdrop.slice_eq (b - a) hk
-  have hget : (rs.drop a)[b - a] = rs[b] := by
-    rw [List.getElem_drop]; congr 1; omega
-  rw [hget] at this
-  rw [this, ← hc, List.extract_eq_take_drop]
-  simp only [contents, List.map_drop]
-  congr 2
-  omega
+  rw [← fields_are_contents d line hd hline]
+  exact (fields_tiling d line hd hline).slice_extract a b hab hb
 
 /-- the number of ranges is the number of fields of the specification -/
 theorem fields_length (d line : Bytes) (hd : d ≠ []) (hline : line ≠ []) :
